@@ -72,6 +72,12 @@ def build_all(clean=False):
             translator = json.loads(r.stdout[r.stdout.index('{'):])
         except Exception:
             translator = {'tables': 'failed: translator crashed', 'functions': {}, 'output': r.stdout[-2000:]}
+        r = run(['/venv/bin/python', os.path.join(VERIF, 'gen', 'translate_utils.py'), REPO, os.path.join(BUILD, 'gen')],
+                timeout=300)       # segno/utils.py (after translate.py: it refers to SrcFuns.v / SrcFnPat.v)
+        try:
+            translator['utils'] = json.loads(r.stdout[r.stdout.index('{'):])
+        except Exception:
+            translator['utils'] = {'functions': {'*': 'failed: translator crashed'}, 'output': r.stdout[-2000:]}
         srcs = coq_sources()
         listfile = os.path.join(BUILD, '.filelist')
         old = open(listfile).read() if os.path.exists(listfile) else ''
